@@ -192,10 +192,18 @@ def run(ctx, repo, tier):
         for c in ast.walk(hgv.node):
             if isinstance(c, ast.ListComp) and len(c.generators) == 1:
                 g = c.generators[0]
+                it_ok = isinstance(g.iter, ast.Call) and src(g.iter.func) == "self._get_upper_indices" and not g.iter.args
                 if isinstance(c.elt, ast.Subscript) and isinstance(c.elt.value, ast.Name) and c.elt.value.id == vname and \
                         isinstance(g.target, ast.Name) and isinstance(c.elt.slice, ast.Name) and c.elt.slice.id == g.target.id and \
-                        "_get_upper_indices" in src(g.iter) and not g.ifs:
-                    comp_ok = True
+                        it_ok and not g.ifs:
+                    # the comprehension must be what is returned (possibly wrapped in np.array), not a re-ordered view of it
+                    for r_ in ast.walk(hgv.node):
+                        if isinstance(r_, ast.Return) and r_.value is not None:
+                            v_ = r_.value
+                            if isinstance(v_, ast.Call) and len(v_.args) == 1 and (repo.dotted_of(hgv.module, v_.func) or "") in ("numpy.array", "numpy.asarray"):
+                                v_ = v_.args[0]
+                            if v_ is c:
+                                comp_ok = True
     ctx.check(comp_ok, "LAYOUT", "C15.half.volumes", "half-sphere volumes are the full-sphere volumes taken at the (ascending) upper "
               "indices, i.e. the first N of the 2N double-cover volumes", hgv.where,
               "np.array([all_volumes[i] for i in self._get_upper_indices()])", witness="selection idiom not found")
